@@ -78,6 +78,9 @@ def gen_case(rng, tier, index):
         # thousands of lines: batching / chunking inside save() and the readers gets exercised
         nbig = rng.choice([4096, 4097, 8192, 8200, 10000])
         lines = [f"line {i}" for i in range(nbig)]
+        if rng.random() < 0.5:
+            # 16-byte lines: the file is an exact multiple of 64 KiB long
+            lines = [f"{i:015d}" for i in range(rng.choice([4096, 8192]))]
         ops = [[rng.choice(["append", "set", "insert", "del", "get"]), rng.randrange(1 << 20), rng.randrange(len(ALPHABET)),
                 rng.randrange(1 << 20)] for _ in range(rng.randint(0, 3))]
         return {"lines": lines, "final_nl": True, "variant": VARIANTS[(index // 11) % len(VARIANTS)], "ops": ops, "index": "built",
